@@ -157,7 +157,6 @@ func (c *context) URLPath(name string, pairs ...string) string {
 }
 
 func (c *context) Next() {
-	c.index++
 	c.run()
 }
 
@@ -203,17 +202,21 @@ func (c *context) run() {
 			h = c.handlers[c.index]
 		}
 
+		// Advance before invoking the handler, so that any call to Next() from within
+		// the handler continues with the handler that follows, no matter how many
+		// handlers have been run by previous calls.
+		index := c.index
+		c.index++
+
 		if h == nil {
-			c.index++
 			return
 		}
 
 		vals, err := c.Invoke(h)
 		if err != nil {
 			panic(fmt.Sprintf("unable to invoke the %s handler [%s:%T]: %v",
-				ordinalize(c.index), runtime.FuncForPC(reflect.ValueOf(h).Pointer()).Name(), h, err))
+				ordinalize(index), runtime.FuncForPC(reflect.ValueOf(h).Pointer()).Name(), h, err))
 		}
-		c.index++
 
 		// If the handler returned something, write it to the response.
 		if len(vals) > 0 {
